@@ -362,7 +362,8 @@ class Evidence:
 
     def add_judged(self, label, stats, rejects, obs_path=None, nsamples=2):
         self.judged += stats["n"]
-        self.accepted += stats["n"] - len(rejects)
+        self.accepted += stats["n"] - len(rejects) - stats.get("unjudged", 0)
+        self.unjudged = getattr(self, "unjudged", 0) + stats.get("unjudged", 0)
         self.nontrivial += stats.get("nontrivial", 0)
         self.phases.append({"phase": label, "records": stats["n"], "nontrivial": stats.get("nontrivial", 0),
                             "rejected": len(rejects), **{k: v for k, v in stats.items() if k not in ("n", "nontrivial")}})
@@ -395,6 +396,7 @@ class Evidence:
                 "checker_cmd": "; ".join(self.checker) if self.checker else "./check %s %s" % (self.prop, self.tier),
                 "trusted_base": self.trusted,
                 "known_findings_reported": known_hits,
+                "unjudged_open_or_outside_domain": getattr(self, "unjudged", 0),
             },
             "assumptions": self.assumptions,
             "wall_s": round(time.time() - self.t0, 1),
